@@ -108,7 +108,7 @@ def run(ctx):
         clis[mod] = p
     quick = ctx.tier == "quick"
     reps = 5 if quick else 20
-    terms, jsons, err = run_farm(ctx, binp, clis, ["-n", 5 if quick else 24, "-reps", reps], "hash")
+    terms, jsons, err = run_farm(ctx, binp, clis, ["-n", 4 if quick else 24, "-reps", reps], "hash")
     if err:
         ctx.report({"unchecked": "hash farm run", "detail": err[-3000:]}, {"kind": "harness"}, failing_input=False)
         return
@@ -126,7 +126,7 @@ def run(ctx):
     ctx.cov.update({
         "evaluations": len(jsons),
         "generations": gens,
-        "generations_per_definition": "%d in one process (interleaved with two other definitions, alternating fresh/existing) + %d in separate processes (real CLIs)" % (reps, reps),
+        "generations_per_definition": "%d in one process (interleaved with another definition, alternating fresh/existing) + %d in separate processes (real CLIs)" % (reps, reps),
         "distinct_nontrivial": vlib.distinct_count([j["def"]["source"] for j in produced]),
         "rule": "case = one definition file (gsort / genum / gerror) with >= 2 of everything the generator keeps in a map "
                 "or sorts (types per file, sorters per struct, duplicate-value groups, traits, imported packages, tagged fields) "
